@@ -136,6 +136,12 @@ def judge(kind, desc, outcome):
 
 def cli_replay(path, log):
     first = open(path).readline().strip()
+    if first.startswith("E2::"):
+        import mir2smt
+        args = [l for l in open(path).read().split("\n")[1:] if l and not l.startswith("#")][0]
+        r = mir2smt.native_eval(["%s %s" % (first[4:], args)], log)
+        log(json.dumps(r))
+        return 0
     hs = [h for h in registry.scan() if h["name"] == first]
     if not hs:
         log("unknown harness " + first)
